@@ -89,7 +89,7 @@ pub const KITS: &[Kit] = &[
           decoys: &["val s = \"<block name=decoy> </block>\"", "val t = \"// <block name=decoy> </block>\""], forms: SLASH, blank_between: false, indent_ok: true },
     Kit { grammar: "makefile", files: &["Makefile", "makefile", "x.mk"], prologue: "", epilogue: "", code: &["X = 1", "all:\n\t@echo hi"],
           decoys: &["S = \"<block name=decoy> </block>\"", "t:\n\t@echo \"# <block name=decoy> </block>\""], forms: HASH, blank_between: false, indent_ok: false },
-    Kit { grammar: "markdown", files: &["x.md", "x.markdown"], prologue: "# Title\n\n", epilogue: "", code: &["Some text here", "- item"],
+    Kit { grammar: "markdown", files: &["x.md", "x.markdown"], prologue: "# Title\n\n", epilogue: "", code: &["Some text here", "*More* text"],
           decoys: &["```\n[//]: # (<block name=decoy>)\n[//]: # (</block>)\n```", "text `<block name=decoy> </block>` text", "    <!-- <block name=decoy> </block> -->"],
           forms: &[
               Form { kind: FormKind::Md, open: "(", close: ")", cont: "", family: 0, quote: '"' },
